@@ -1325,6 +1325,27 @@ class Sim(object):
         # tracebacks were handled universally; a refusal must carry a message
         if status == "exit0":
             self.violate("silent_exit", "bad", step_no, argv=argv)
+        if spec.get("slot") == "item" and status == "ok":
+            # the lone date-time item was damaged: if the library's own
+            # parser refuses it, so must the command line
+            from metomi.isodatetime import parsers
+            item = argv[0]
+            try:
+                with kernel.guarded():
+                    parsers.TimePointParser(
+                        assumed_time_zone=(0, 0)).parse(item)
+                return
+            except kernel.Hang:
+                raise
+            except ValueError:
+                pass
+            except Exception:
+                return
+            if item.startswith(("R", "-")) or item in ("now", "ref"):
+                return      # a recurrence, or something argparse reads as
+                #             an option rather than as the item
+            self.violate("accepted_unparsable", "bad", step_no, argv=argv,
+                         got=[status, out])
 
     # ---- host actor
     def host(self, step):
